@@ -381,3 +381,26 @@ def _m_sniff(mod):
         return False
 
     return mod if replace_in_func(mod, "load_model", edit) else None
+
+
+@SPEC.mutant("header written as a record of its own", API, "R21.6", "pickle.dump runs at most once")
+def _m_two_records(mod):
+    def edit(fn):
+        for w in ast.walk(fn):
+            if isinstance(w, ast.With):
+                for i, st in enumerate(w.body):
+                    if isinstance(st, ast.Expr) and "pickle.dump" in norm(st):
+                        w.body.insert(i, ast.parse(norm(st)).body[0])
+                        return True
+        return False
+
+    return mod if replace_in_func(mod, "save_model", edit) else None
+
+
+@SPEC.mutant("libraries built after the cache file", API, "R21.7", "built before")
+def _m_codegen_late(mod):
+    def edit(fn):
+        fn.body.append(ast.parse("if compiler_options['codegen']:\n    _codegen_model(model_folder, model.dae_residual_function, model_name + '_dae_residual')").body[0])
+        return True
+
+    return mod if replace_in_func(mod, "save_model", edit) else None
